@@ -136,6 +136,13 @@ def enumerate_cases(tier: str, shard: int, nshards: int):
                             continue
                         plan = ([off] if off else []) + [q] * (2 * (max(counts) // q) + 8)
                         yield {"kind": "threads", "docs": docs, "calls": calls, "cfg": cfg, "state": state, "plan": plan[:6000], "origin": "round-robin"}
+    # history ramp: every step parses documents whose destinations, labels and words are new to the process (so any
+    # size-bounded module-level memo moves towards and across its bound) and sweeps the pre-emption points of call 1
+    # that lie in code able to mutate a module-level container - nothing to sweep when the library has no such code
+    for ci in range(2):
+        idx += 1
+        if idx % nshards == shard:
+            yield {"kind": "ramp", "cfgi": ci, "steps": 80 if tier == "quick" else 700, "salt": f"{tier[0]}{ci}"}
     # nested re-entrancy sweeps
     for pi, docs in enumerate(PAIRS):
         cfg = CFGS[pi % len(CFGS)]
@@ -306,10 +313,64 @@ def check_nested(case, res: Res) -> None:
 # --------------------------------------------------------------------------------------------
 
 
+def ramp_docs(tag: str):
+    a = f"[a{tag}](/p/{tag}/a \"t{tag}\") ![i{tag}](/img/{tag}a) <http://h{tag}a.example/>\n\n[ra{tag}]: /ref/{tag}a 'T{tag}'\n\n[x][ra{tag}] w{tag} *e{tag}* `c{tag}`\n"
+    b = f"[b{tag}](/q/{tag}/b) ![j{tag}](/img/{tag}b \"u{tag}\") <http://h{tag}b.example/>\n\n[rb{tag}]: /ref/{tag}b\n\n[y][rb{tag}] v{tag} **s{tag}**\n"
+    return [a, b]
+
+
+def check_ramp(case, res: Res) -> None:
+    cfg = CFGS[case["cfgi"]]
+    sched.arm()
+    res.cls.append("ramp")
+    names = sched._STATE["mut_names"]
+    res.note = {"code that can mutate a module-level container": names}
+    if not names:
+        res.cls.append("ramp:no-code-mutates-module-level-containers")
+        return
+    md = C.build(cfg)
+    md.render(PAIRS[0][0])
+    n = 0
+    for h in range(case["steps"]):
+        docs = ramp_docs(f"{case['salt']}x{h}")
+        # where thread 0 is inside such code (recorded on another instance; this also makes call 1's keys known to
+        # any memo, call 2's stay new)
+        rec_md = C.build(cfg)
+        rec_md.render(PAIRS[0][0])  # same state as the shared instance: chains compiled
+        s0 = sched.Sched([lambda: _call(rec_md, "render", docs[0])], [sched.BIG], 10**8, record_focus=True)
+        s0.run()
+        pts = s0.mutfocus
+        if len(pts) > 120:
+            pts = pts[:: max(1, len(pts) // 120)]
+        for j, k in enumerate(pts):
+            # call 2 must be new to the process at every schedule: vary its tag
+            d2 = ramp_docs(f"{case['salt']}x{h}y{j}")[1]
+            fns = [lambda: _call(md, "render", docs[0]), lambda d2=d2: _call(md, "render", d2)]
+            s = sched.Sched(fns, [k, sched.BIG], 10**7)
+            results, _ = s.run()
+            n += 1
+            exp = [_call(C.build(cfg), "render", docs[0]), _call(C.build(cfg), "render", d2)]
+            for i, (r, e) in enumerate(zip(results, exp)):
+                if r is None or r[0] == "nonterminating":
+                    res.fail("ramp:nontermination-under-schedule", f"step {h} point {k} thread {i}")
+                elif r[0] == "exception":
+                    res.fail("ramp:exception-under-schedule:" + r[1].split(":")[0], f"after {h} ramp steps, thread 1 pre-empted after {k} library instructions (inside {sorted(names)}): thread {i} raised {r[1]}"[:500])
+                elif r[1] != e:
+                    res.fail("ramp:result-differs-from-solo", f"after {h} ramp steps, pre-emption after {k} instructions: thread {i} {r[1][0]!r} != solo {e[0]!r}"[:600])
+            if res.v:
+                res.n = max(1, n)
+                return
+    res.n = max(1, n)
+    res.nt = n > 0
+
+
 def check(case) -> Res:
     res = Res()
     if case["kind"] == "nested":
         check_nested(case, res)
+        return res
+    if case["kind"] == "ramp":
+        check_ramp(case, res)
         return res
     cfg, docs, calls, state = case["cfg"], case["docs"], case["calls"], case["state"]
     key = repr(cfg)
